@@ -1,15 +1,15 @@
 """C10 — text is verbatim and whitespace control exact under any delimiter configuration
 (DESIGN.md §3 C10)."""
-import json, os, re, collections
+import json, os, re, collections, functools
 
 READY = True
 
 META = {
-    "technique": "Lean 4 proof (model of the root tokenizer incl. tag interiors, line statements/comments and the Aho-Corasick start-marker search as syntax.rs builds it = declarative whitespace rules on segment lists, for every setting, marker placement, line ending and every well-formed delimiter set) + enumerated/sampled correspondence of model, Lean spec, an independent Python implementation of the rules and the real engine (tokenizer and Environment::render_str)",
+    "technique": "Lean 4 proof (model of the root tokenizer incl. tag interiors with string literals and every escape of utils::unescape, line statements/comments and the Aho-Corasick start-marker search as syntax.rs builds it = declarative whitespace rules on segment lists, for every setting, marker placement, line ending and every delimiter set SyntaxConfigBuilder::build accepts except those whose delimiters contain rule-relevant whitespace) + enumerated/sampled correspondence of model, Lean spec, an independent Python implementation of the rules and the real engine (tokenizer, find_start_marker and Environment::render_str)",
     "category": "proof",
-    "text": "Kernel-checked theorems about MJ/Model/Lexer.lean (transcription of Tokenizer::new, tokenize_root, find_start_marker incl. validated_start_delims / pattern_to_marker / the overlapping-match loop with max_pattern_len, find_start_marker_memchr, lstrip_block, should_lstrip_block, handle_tail_ws, skip_newline_if_trim_blocks, comment and raw handling, tokenize_block_or_var with strings, numbers, operators and bracket depth, line statements and line comments with skip_nl): the search the tokenizer uses is leftmost-longest for every delimiter set build accepts; the end of a tag is found exactly behind any well-formed token-list interior; on every template whose texts contain no start delimiter and whose tags read back as written the lexed text equals specRender, which applies the five rules of the statement locally and treats a line statement / line comment as the block / comment tag occupying its line; the result does not depend on the delimiter set and default-looking tags are plain text under other delimiters. Tied to /repo by running segment sequences (alphabets of the quantifier x tags incl. degenerate and rich interiors x marker pairs x 8 settings x 11 delimiter families), random delimiter sets x random sources, line statement layouts and core-fragment programs through machinery::tokenize, Environment::render_str, the compiled Lean model and spec, and a second implementation of the rules in Python; invalid delimiter sets must be rejected by SyntaxConfigBuilder::build.",
+    "text": "Kernel-checked theorems about MJ/Model/Lexer.lean (transcription of Tokenizer::new, tokenize_root, find_start_marker incl. validated_start_delims / pattern_to_marker / the overlapping-match loop with max_pattern_len, find_start_marker_memchr, lstrip_block, should_lstrip_block, handle_tail_ws, skip_newline_if_trim_blocks, comment and raw handling incl. skip_basic_tag's marker-then-end rule, tokenize_block_or_var with numbers, operators, bracket depth and string literals: eat_string's quote search and unescape's \\uXXXX with surrogate pairs, \\xXX, octal and simple escapes, unterminated strings; line statements and line comments with skip_nl): the search the tokenizer uses is leftmost-longest for every delimiter set build accepts; the end of a tag is found exactly behind any well-formed token-list interior, for every end delimiter that does not begin with ASCII whitespace (it may begin with -, +, digits, letters, quotes: `-->`, `+}`, `1>`, `v>`); on every template whose texts contain no start delimiter and whose tags read back as written the lexed text equals specRender, which applies the five rules of the statement locally and treats a line statement / line comment as the block / comment tag occupying its line; the result does not depend on the delimiter set and default-looking tags are plain text under other delimiters.  Tied to /repo by running segment sequences (alphabets of the quantifier x tags incl. degenerate and rich interiors, strings that contain the family's own delimiters, ~100 escape bodies valid and invalid x marker pairs x 8 settings x 23 delimiter families incl. end delimiters beginning with -, +, a digit, a letter, whitespace and ending in blanks), degenerate tags as programs in every family against the default syntax, random delimiter sets x random sources, line statement layouts under 79 families with line prefixes and core-fragment programs through machinery::tokenize, Environment::render_str, the compiled Lean model and spec, and a second implementation of the rules in Python; the real find_start_marker (hook) against the model of the automaton path, the Lean reference search and a Python search on every haystack of length <= 5 (thorough 6) over {a, b, blank, newline} for start delimiter sets whose members are prefixes / suffixes / infixes of one another and overlap themselves, in every role; invalid delimiter sets must be rejected by SyntaxConfigBuilder::build.",
     "design_ref": "DESIGN.md §3 C10",
-    "level_note": "Trusted: Lean kernel; hand transcription of lexer.rs / syntax.rs into MJ/Model/Lexer.lean (validated on every generated case, including non-delimiter-free texts and lexer errors); aho_corasick::find_overlapping is represented by 'all occurrences ordered by end offset' (the proof does not depend on the order among matches with the same end); byte offsets of the Rust code are character positions of the model; non-ASCII identifiers and \\u/\\x/octal string escapes are outside the model (answer 'unsupported'); the parser / code generator / renderer behind the lexer are covered by the differential runs only.",
+    "level_note": "Trusted: Lean kernel; hand transcription of lexer.rs / syntax.rs / utils::unescape into MJ/Model/Lexer.lean (validated on every generated case, including non-delimiter-free texts and lexer errors); aho_corasick::find_overlapping is represented by 'all occurrences ordered by end offset' (the proof does not depend on the order among matches with the same end; the kac stream compares the real search exhaustively on small haystacks); byte offsets of the Rust code are character positions of the model.  MOVED FROM VALIDATED TO PROVED in this round: (1) string literals with \\uXXXX (incl. surrogate pairs and from_str_radix's leading +), \\xXX and octal escapes are tokens of lex_eq_spec / interior_end_found (Tok.str with strBodyOk = what unescape accepts, proved equal to the model's character-by-character reading; they were 'unsupported'); (2) end delimiters that begin with - / + (after fix 2cdfe64), with digits, letters, quotes or any other non-blank character, comment ends that begin with whitespace, end delimiters that end in horizontal whitespace, and block/variable/comment start delimiters that end in a line break are inside goodDelims (they were excluded by hypothesis; the excluded point hid the defect); (3) raw tags under such end delimiters (skip_basic_tag).  NOT COVERED by the theorems, with the reason (real code probed at each point): (a) start delimiters that begin with whitespace (` {%`): after `-}}` or, for a leading line break, under trim_blocks the lexer removes the whitespace the next delimiter begins with and the tag becomes text - the statement's clauses 'whitespace adjacent to a - marker is removed' and 'rewriting tags to other delimiters changes nothing' contradict each other there; (b) line prefixes that end in a line break and end delimiters whose last non-blank character is a line break (`%}\\n`): Tokenizer::new removes the template's trailing line break, which is then part of the last tag's delimiter (the tag no longer closes), and lstrip_blocks sees a line start behind the tag - again a rule of the statement applies to whitespace that belongs to a delimiter; (c) variable / block end delimiters that begin with ASCII whitespace: build accepts them but blanks inside a tag are skipped before the end delimiter is looked for, so no tag ever closes (every tag is a syntax error; the cfg stream checks that such a set renders the probe as written or fails); (d) non-ASCII identifiers (model answers 'unsupported'; 713 of 12216 random-set cases).  Sources that do not read back as written are outside by definition of the statement (`<!---->` = `<!--` + left marker + unclosed body; end delimiter `--` followed by the text `-x` = marker + end, as in Jinja2).  The parser / code generator / renderer behind the lexer are covered by the differential runs only.",
 }
 
 _WS_CP = [9, 10, 11, 12, 13, 32, 0x85, 0xA0, 0x1680] + list(range(0x2000, 0x200B)) + [0x2028, 0x2029, 0x202F, 0x205F, 0x3000]
@@ -19,6 +19,7 @@ VM, BM = "\x01", "\x02"
 MK = {"_": "", "-": "-", "+": "+"}
 
 
+@functools.lru_cache(maxsize=1 << 16)
 def unhex(h):
     return bytes.fromhex(h).decode("utf-8")
 
@@ -37,12 +38,22 @@ def parse_segs(segs):
     nb = 0
     for it in segs.split(";"):
         k = it[0]
-        if k == "T":
-            out.append(("T", unhex(it[1:])))
-        elif k in "Bb":
+        if k in "Bb":
             w = "if t" if nb % 2 == 0 else "endif"
             out.append(("B", it[1], it[2], " " + w + " " if k == "B" else w))
             nb += 1
+        else:
+            out.append(parse_item(it))
+    return out
+
+
+@functools.lru_cache(maxsize=1 << 16)
+def parse_item(it):
+    out = []
+    if True:
+        k = it[0]
+        if k == "T":
+            out.append(("T", unhex(it[1:])))
         elif k in "Vv":
             out.append(("V", it[1], it[2], " v " if k == "V" else "v"))
         elif k == "C":
@@ -55,7 +66,7 @@ def parse_segs(segs):
             out.append(("R", it[1], it[2], it[3], it[4], unhex(it[5:]), k == "r"))
         else:
             raise ValueError(it)
-    return out
+    return out[0]
 
 
 def tag_src(d, it):
@@ -76,18 +87,75 @@ def own_start(d, it):
 
 _ASCII_WS = " \t\n\x0c\r"
 _TOK = re.compile(r"""(?P<ws>[ \t\n\x0c\r]+)|(?P<ident>[A-Za-z_][A-Za-z0-9_]*)|(?P<int>[0-9]+)
-    |(?P<str>'(?:\\[^ux0-7]|[^'\\])*'|"(?:\\[^ux0-7]|[^"\\])*")
-    |(?P<op2>//|\*\*|==|!=|>=|<=)|(?P<op>[-+*/%.,:~|=<>()\[\]{}])""", re.X)
+    |(?P<str>'(?:\\.|[^'\\])*'|"(?:\\.|[^"\\])*")
+    |(?P<op2>//|\*\*|==|!=|>=|<=)|(?P<op>[-+*/%.,:~|=<>()\[\]{}])""", re.X | re.S)
+
+
+def _radix16(s):
+    """u16/u8::from_str_radix(s, 16): an optional `+`, then at least one hex digit, nothing else"""
+    t = s[1:] if s[:1] == "+" else s
+    return int(t, 16) if t and all(c in "0123456789abcdefABCDEF" for c in t) else None
+
+
+def unescape_ok(body):
+    """utils::unescape, transcribed: does it accept the body of a string literal?"""
+    it = iter(body)
+    pending = 0
+
+    def push_char():
+        return pending == 0
+
+    for c in it:
+        if c != "\\":
+            if not push_char():
+                return False
+            continue
+        d = next(it, None)
+        if d is None:
+            return False
+        if d == "u":
+            h = "".join(next(it, "\0") for _ in range(4))
+            v = _radix16(h)
+            if v is None:
+                return False
+            surrogate = 0xD800 <= v <= 0xDFFF
+            if pending == 0 and not surrogate:
+                pass
+            elif not surrogate:
+                return False
+            elif pending == 0:
+                pending = v
+            elif pending <= 0xDBFF and v >= 0xDC00:
+                pending = 0
+            else:
+                return False
+        elif d == "x":
+            h = "".join(x for x in (next(it, None), next(it, None)) if x is not None)
+            if len(h.encode()) != 2 or _radix16(h) is None or not push_char():
+                return False
+        elif d in "01234567":
+            o = d
+            rest = "".join(it)
+            while len(o) < 3 and rest[:1] and rest[0] in "01234567":
+                o, rest = o + rest[0], rest[1:]
+            it = iter(rest)
+            if int(o, 8) > 255 or not push_char():
+                return False
+        elif not push_char():
+            return False
+    return pending == 0
 
 
 def interior_reads_back(e, interior, l, r, following, block):
     """second opinion on `interiorOk`: the interior is a sequence of blanks, ASCII identifiers, decimal
-    integers, string literals (simple escapes), operators and brackets that the lexer reads token
+    integers, string literals (every escape `unescape` accepts), operators and brackets that the lexer reads token
     by token; at bracket depth 0 no token starts with the end delimiter or with a marker directly
     in front of it; brackets are closed at the end; nothing behind an unmarked opening side looks
     like a marker; a block tag is not `raw`"""
     src = interior + MK[r] + e + following
     if l == "_" and (interior + MK[r] + e)[:1] in ("-", "+"):
+        return False
+    if not close_ok(e, r, following):
         return False
     if block and src.lstrip(_ASCII_WS).startswith("raw"):
         return False
@@ -106,12 +174,20 @@ def interior_reads_back(e, interior, l, r, following, block):
         if kind == "int":
             if nxt.isalnum() or nxt in ("_", ".") or (nxt and ord(nxt) >= 128) or int(m.group()) >= 2 ** 128:
                 return False
+        if kind == "str" and "\\" in m.group() and not unescape_ok(m.group()[1:-1]):
+            return False
         if kind == "op":
             if (m.group() + nxt) in ("//", "**", "==", "!=", ">=", "<="):
                 return False
             bal += {"(": 1, "[": 1, "{": 1, ")": -1, "]": -1, "}": -1}.get(m.group(), 0)
         p = m.end()
     return bal == 0
+
+
+def close_ok(e, r, following):
+    """an unmarked closing side is not read as a marked one: the end delimiter `--` followed by the
+    text `-x` is read as `-` + `--` (by the lexer as by Jinja2)"""
+    return r != "_" or not (e[:1] in ("-", "+") and (e + following)[1:].startswith(e))
 
 
 def comment_reads_back(d, it):
@@ -126,9 +202,9 @@ def comment_reads_back(d, it):
     # with a left marker that is never closed)
     if l == "_" and (br + d["ce"])[:1] in ("-", "+"):
         return False
-    # the byte inspected for the closing marker is the last one of the body, or, for an empty body,
-    # the first one of the end delimiter
-    if r == "_" and (body[-1:] or d["ce"][:1]) in ("-", "+"):
+    # the byte in front of the end delimiter is the closing marker; an empty body has none (whatever
+    # the end delimiter begins with)
+    if r == "_" and body[-1:] in ("-", "+"):
         return False
     return True
 
@@ -321,6 +397,7 @@ def py_free(d, items):
         starts.append((d["lc"], False))
     src, regions, tags, rs = "", [], [], 0
     pending = []
+    pending_raw = []
     for it in items:
         if it[0] == "T":
             src += it[1]
@@ -337,11 +414,17 @@ def py_free(d, items):
             c, bs = it[5], d["bs"]
             if "endraw" in c:
                 return False
+            p = "" if it[6] else " "
+            pending_raw.append((it, c + bs + MK[it[3]] + p + "endraw" + p + MK[it[4]] + d["be"], len(src)))
             probe = c + bs
             for p in range(max(0, len(c) - len(bs) + 1), len(c)):
                 if probe.startswith(bs, p):
                     return False
     regions.append((rs, len(src)))
+    for it, inner, end in pending_raw:
+        # the unmarked closing sides of `raw` and `endraw`
+        if not close_ok(d["be"], it[2], inner + src[end:]) or not close_ok(d["be"], it[4], src[end:]):
+            return False
     for it, end in pending:
         e = d["ve"] if it[0] == "V" else d["be"]
         if not interior_reads_back(e, it[3], it[1], it[2], src[end:], it[0] == "B"):
@@ -361,6 +444,7 @@ def py_free(d, items):
     return True
 
 
+@functools.lru_cache(maxsize=1 << 16)
 def render_tok(tok):
     """engine token list -> text with markers, or None when the lexer reported an error"""
     if tok in ("panic", "badcfg"):
@@ -391,6 +475,38 @@ def kern_words(n):
 
 def kern_digit(i):
     return "." if i < 0 else "0123456789abcdefghijklmnopqrstuvwxyz"[i]
+
+
+KAC_ALPHA = "ab \n"
+
+
+@functools.lru_cache(maxsize=8)
+def kac_words(n):
+    out, level = [""], [""]
+    for _ in range(n):
+        level = [w + c for w in level for c in KAC_ALPHA]
+        out += level
+    return out
+
+
+def py_find_start(d, prefix, hay):
+    """leftmost start delimiter, the longest one there; the line statement prefix counts only
+    when nothing but blanks and tabs precede it on its line"""
+    pats = [("v", d["vs"]), ("b", d["bs"]), ("c", d["cs"])]
+    if d["ls"]:
+        pats.append(("s", d["ls"]))
+    if d["lc"]:
+        pats.append(("l", d["lc"]))
+    src = prefix + hay
+    for p in range(len(prefix), len(src)):
+        best = None
+        for kind, pat in pats:
+            if src.startswith(pat, p) and (kind != "s" or at_line_start(src, p)):
+                if best is None or len(pat) > len(best[1]):
+                    best = (kind, pat)
+        if best:
+            return kern_digit(p - len(prefix)) + best[0] + kern_digit(len(best[1]))
+    return "..."
 
 
 def fields_of(parts):
@@ -451,53 +567,109 @@ def run(r):
     r.rule = ("seg: default delimiters, all 8 settings, exhaustively: every sequence of <= 2 items, every text-tag-text and tag-text-tag "
               "triple (thorough: every sequence of 3 items) over 12 whitespace/newline/CR/brace/look-alike texts x {variable, if/endif, "
               "comment} x 9 marker pairs + raw blocks (outer and inner markers, 16 contents); degenerate tags (empty / blank / marker-like "
-              "comment bodies, tight tags, empty raw blocks with 81 marker combinations) and 70 richer interiors (strings containing end "
-              "delimiters, brackets, numbers in every notation, operators next to the end delimiter, lexer errors) in text contexts; "
-              "60k (thorough 300k) sampled sequences of 3-4 items over 44 texts; the same vocabulary with look-alike texts under 10 "
-              "custom delimiter families.  rand: 500 (thorough 4000) random delimiter sets (shared stems, nested and contained start "
+              "comment bodies, tight tags, empty raw blocks with 81 marker combinations), 70 richer interiors (strings containing end "
+              "delimiters, brackets, numbers in every notation, operators next to the end delimiter, lexer errors) and ~100 string "
+              "literals with every escape of unescape (\\u incl. surrogate pairs, \\x, octal, leading +; valid, invalid, unterminated) in "
+              "text contexts; 60k (thorough 300k) sampled sequences of 3-4 items over 44 texts; the same vocabulary with look-alike texts "
+              "under 22 custom delimiter families (every sequence of <= 2 items, degenerate tags between texts and next to other tags, "
+              "strings that contain the family's own delimiters), among them end delimiters that begin with - (`-->`, `-%>`), + , a digit, "
+              "a letter, whitespace (comment end), end in blanks, and `--` / `++` whose marked reading can swallow text.  rand: 500 "
+              "(thorough 4000) random delimiter sets (shared stems, nested and contained start "
               "delimiters, multi-byte characters, optional line prefixes) x 30-40 random sources made of delimiter fragments.  prog: "
-              "random core-fragment programs rewritten to each family (lexed by the model as well).  line: random line statement / line "
-              "comment layouts x 3 line endings x 8 settings, as templates with line tags (Lean spec) and against the in-place tag form.  "
+              "degenerate tags as programs (comments with empty / blank / marker-like bodies, tight variable tags, if blocks, raw blocks x "
+              "all marker placements; every sequence of <= 2 segments) and random core-fragment programs, rewritten to each family and "
+              "compared with the default syntax (lexed by the model as well).  line: random line statement / line "
+              "comment layouts x 3 line endings x 8 settings under 79 families (every family x {#/##, @@/@, statement prefix only, comment "
+              "prefix only}), as templates with line tags (Lean spec) and against the in-place tag form.  "
               "kern: the real utils::memstr / utils::memchr on every haystack of length <= 8 over a 3-letter alphabet x every needle of "
-              "length 1-4 (exhaustive) against the Lean kernels and Python's str.find.  entry: sampled segment sequences through "
+              "length 1-4 (exhaustive) against the Lean kernels and Python's str.find.  kac: the real find_start_marker on every haystack "
+              "of length <= 5 (thorough 6) over {a, b, blank, newline} (also behind a prefix, mid-line and at a line start) x 450 "
+              "(thorough 1680) start delimiter sets whose members are prefixes / suffixes / infixes of one another and self-overlapping, "
+              "in every role incl. both line prefixes, against the model of the automaton path, the Lean leftmost-longest search and a "
+              "Python search.  entry: sampled segment sequences through "
               "render_str, render_named_str, template_from_str, template_from_named_str, render_captured(_to), add_template + "
               "get_template, a cloned environment, a loader, and with the whitespace settings flipped after add_template / before the "
               "first load.  wrap: bodies from the segment alphabet inside for / macro / call / set / filter / block / with / autoescape "
               "with random markers on the opening and closing tags, expectation computed from the rules.  big: texts beyond 64 KiB.  "
-              "cfg: valid, invalid and degenerate delimiter sets.  Families now include self-overlapping delimiters in every role "
-              "(<!-- -->, /** **/, {{% %}}, <<< >>>, ##{ ##}, aab/aaa/abab, line prefixes -- / ---) with texts, comment bodies and raw "
-              "contents built from the delimiters' own characters.  A seg case is non-trivial when it is distinct, delimiter-free and "
+              "cfg: valid, invalid and degenerate delimiter sets.  A seg case is non-trivial when it is distinct, delimiter-free and "
               "contains at least one tag")
     r.assumptions = ["byte offsets of the Rust lexer correspond to character positions of the model (UTF-8 self-synchronisation)",
                      "aho_corasick::find_overlapping reports every occurrence of every pattern ordered by end offset",
                      "identifiers are ASCII (with the unicode feature non-ASCII identifier characters make the model answer 'unsupported')",
+                     "delimiters contain no whitespace a rule of the statement could remove (start delimiters do not begin with whitespace, line prefixes and end delimiters do not end in a line break), and variable / block end delimiters do not begin with ASCII whitespace",
                      "sequences longer than those enumerated behave as the induction in lex_eq_spec says (proved for the model)"]
     r.regen_tables(["C10_DEFAULT_DELIMS", "C10_VALIDATED_ORDER", "C10_PATTERN_TO_MARKER", "C10_WS_FROM_BYTE", "C10_OPERATORS",
-                    "C10_RADIX_PREFIXES", "C10_SEARCH_SITES"])
+                    "C10_RADIX_PREFIXES", "C10_SEARCH_SITES", "C10_UNESCAPE"])
     r.lean_prove("MJ.Props.C10", "MJ/Audit/C10.lean", extra_targets=["drive_c10"])
     exe = r.cargo_build("c10")
     if exe is None:
         return
-    # the streams are produced and checked part by part to bound memory
+    # the streams are produced and checked part by part to bound memory; the next part is produced
+    # (harness + model driver, both child processes) while the current one is checked
     nch = 8 if r.tier == "thorough" else 1
-    parts = [("seg-exh", i, nch) for i in range(nch)] + [("seg-sample", 0, 1), ("seg-fam", 0, 1), ("prog", 0, 1), ("line", 0, 1), ("rand", 0, 1), ("big", 0, 1), ("kern", 0, 1), ("entry", 0, 1), ("wrap", 0, 1), ("cfg", 0, 1)]
+    parts = [("seg-exh", i, nch) for i in range(nch)] + [("seg-sample", 0, 1), ("seg-fam", 0, 1), ("prog", 0, 1), ("line", 0, 1), ("rand", 0, 1), ("big", 0, 1), ("kern", 0, 1), ("kac", 0, 1), ("entry", 0, 1), ("wrap", 0, 1), ("cfg", 0, 1)]
     r.exhaustive = False
-    for which, i, n in parts:
-        rc, out, err = r.harness(exe, ["gen", r.tier, which, str(i), str(n)])
-        if rc != 0:
-            r.broken.append(f"harness c10 {which} exited {rc}: {err[-300:]}")
-            return
-        lines = out.splitlines()
-        if not lines:
-            r.broken.append(f"harness c10 produced no cases for {which}")
-            return
-        model = r.driver("drive_c10", out)
-        del out
-        if model is None or len(model) != len(lines):
-            r.broken.append(f"model driver output does not line up with the harness cases ({which})")
-            return
-        check_lines(r, lines, model)
-        del lines, model
+    import queue, threading, concurrent.futures
+    q = queue.Queue(maxsize=1)
+    stop = threading.Event()
+
+    def produce():
+        for which, i, n in parts:
+            if stop.is_set():
+                break
+            try:
+                rc, out, err = r.harness(exe, ["gen", r.tier, which, str(i), str(n)])
+                if rc != 0:
+                    q.put((which, f"harness c10 {which} exited {rc}: {err[-300:]}", None, None))
+                    return
+                lines = out.splitlines()
+                if not lines:
+                    q.put((which, f"harness c10 produced no cases for {which}", None, None))
+                    return
+                if len(lines) > 100_000:
+                    # the model driver works line by line: large parts go through three processes
+                    k = (len(lines) + 2) // 3
+                    chunks = ["\n".join(lines[j:j + k]) + "\n" for j in range(0, len(lines), k)]
+                    del out
+                    with concurrent.futures.ThreadPoolExecutor(max_workers=3) as ex:
+                        res = list(ex.map(lambda c: r.driver("drive_c10", c), chunks))
+                    del chunks
+                    model = None if any(x is None for x in res) else [y for x in res for y in x]
+                else:
+                    model = r.driver("drive_c10", out)
+                    del out
+                if model is None or len(model) != len(lines):
+                    q.put((which, f"model driver output does not line up with the harness cases ({which})", None, None))
+                    return
+                q.put((which, None, lines, model))
+                del lines, model
+            except Exception as ex:  # noqa: BLE001 - reported as a broken check
+                q.put((which, f"producing {which} failed: {ex!r}", None, None))
+                return
+        q.put(None)
+
+    th = threading.Thread(target=produce, daemon=True)
+    th.start()
+    try:
+        while True:
+            item = q.get()
+            if item is None:
+                break
+            which, problem, lines, model = item
+            if problem:
+                r.broken.append(problem)
+                return
+            check_lines(r, lines, model)
+            del lines, model, item
+    finally:
+        stop.set()
+        # let a producer that waits with a finished part go on and end
+        while th.is_alive():
+            try:
+                q.get_nowait()
+            except queue.Empty:
+                pass
+            th.join(timeout=0.2)
 
 
 def check_lines(r, lines, model, verbose=False):
@@ -550,6 +722,27 @@ def check_lines(r, lines, model, verbose=False):
                 got = fl["res"][bad] if bad < len(fl["res"]) else "?"
                 r.oracle_failure(case, f"utils::{which}({hay[bad]!r}, {needle!r}) returned {got!r}, the leftmost occurrence is {want[bad]!r}",
                                  f"kern/{which}")
+            continue
+        if stream == "kac":
+            fam, d = parse_fam(f[1])
+            n, prefix = int(f[2]), unhex(f[3]) if len(f) > 3 else ""
+            words = kac_words(n)
+            want = "".join(py_find_start(d, prefix, h) for h in words)
+            r.count(case, True)
+            r.count(None, True, n=len(words) - 1)
+            npat = 3 + (1 if d["ls"] else 0) + (1 if d["lc"] else 0)
+            r.hist["kac"]["%d patterns, prefix %r" % (npat, prefix)] += len(words)
+            if ml.get("ll") != want:
+                r.broken.append(f"Lean findLL differs from the leftmost-longest search in Python on {case}")
+            if ml.get("res") != want:
+                r.broken.append(f"the Lean model of the Aho-Corasick path differs from leftmost-longest on {case}")
+            got = fl.get("res", "")
+            if got != want:
+                bad = next((k for k in range(len(words)) if got[3 * k:3 * k + 3] != want[3 * k:3 * k + 3]), 0)
+                r.oracle_failure(case, f"find_start_marker({prefix + words[bad]!r}, {len(prefix)}) with start delimiters "
+                                       f"variable={d['vs']!r} block={d['bs']!r} comment={d['cs']!r} line statement={d['ls']!r} "
+                                       f"line comment={d['lc']!r} returned {got[3 * bad:3 * bad + 3]!r}, leftmost-longest is "
+                                       f"{want[3 * bad:3 * bad + 3]!r}", "kac/" + ("line" if (d["ls"] or d["lc"]) else "tags"))
             continue
         if stream in ("seg", "entry", "wrap"):
             tlk, famenc, segs = f[1], f[2], f[-1]
@@ -611,10 +804,10 @@ def check_lines(r, lines, model, verbose=False):
                     r.broken.append(f"compiled model contradicts lex_eq_spec on {case}")
             else:
                 r.hist["theorem"]["outside the hypotheses (line prefixes / weaker freeness): differential only"] += 1
-            site = seg_site(fam, items, tlk)
             got = render_tok(tok)
             if got != spec_py:
-                r.oracle_failure(case, f"lexer produced {got!r}, the whitespace rules give {spec_py!r} (source {src!r})", site)
+                r.oracle_failure(case, f"lexer produced {got!r}, the whitespace rules give {spec_py!r} (source {src!r})",
+                                 seg_site(fam, items, tlk))
                 continue
             if stream == "entry":
                 base = fl.get("render_str", "?")
@@ -641,7 +834,8 @@ def check_lines(r, lines, model, verbose=False):
             if nblocks % 2 == 0:
                 if not o.startswith("ok:") or unhex(o[3:]) != want:
                     shown = unhex(o[3:]) if o.startswith("ok:") else o
-                    r.oracle_failure(case, f"render gave {shown!r}, the whitespace rules give {want!r} (source {src!r})", "render:" + site)
+                    r.oracle_failure(case, f"render gave {shown!r}, the whitespace rules give {want!r} (source {src!r})",
+                                     "render:" + seg_site(fam, items, tlk))
             if i % 30011 == 0:
                 r.sample({"case": case, "source": src, "rendered": want, "engine_tokens": tok})
         elif stream == "prog":
